@@ -165,6 +165,35 @@ def run(ctx):
         ctx.inst("C15.R7", "serde_json@features", "float_roundtrip" in fs_, "resolved features of serde_json %s: %s" % (ver_, sorted(fs_)), "blots/Cargo.toml")
 
     c06_.to_json_number_rule(ctx, "C15.R7", core)
+    c06_.from_json_number_rule(ctx, "C15.R7", core)
+    # ---- R9 a helper that splits the numbers covers all of them
+    ctx.rule("C15.R9", "when the numbers are split into a front and a back part (blocked or pairwise accumulation, selection around a pivot), the parts tile the slice: `x[..a]` and `x[b..]` on the same slice in one function have a == b, otherwise an element is dropped or counted twice", floor=1)
+    n_pairs, n_fn = 0, 0
+    for d_, f_ in sorted(core.hir.items()):
+        if f_.get("body") is None or "::tests::" in d_ or not (d_.startswith("blots_core::functions::") or d_.startswith("blots_core::stats::") or d_.startswith("blots_core::values::")):
+            continue
+        n_fn += 1
+        tos, froms = {}, {}
+        for x in H.walk(f_["body"]):
+            if H.kind(x) != "Index":
+                continue
+            i_ = H.strip(x["i"])
+            base = H.path_local(H.strip(x["e"])) or (H.path_local(H.strip(H.strip(x["e"]).get("e") or {})) if H.kind(H.strip(x["e"])) in ("AddrOf", "Unary") else None)
+            if base is None or H.kind(i_) != "Struct":
+                continue
+            rd = (i_["res"].get("def") or "")
+            flds = {fl["name"]: fl["e"] for fl in i_["fields"]}
+            if rd.endswith("range::RangeTo") and "end" in flds:
+                tos.setdefault(base, []).append(flds["end"])
+            if rd.endswith("range::RangeFrom") and "start" in flds:
+                froms.setdefault(base, []).append(flds["start"])
+        for b_ in sorted(set(tos) & set(froms)):
+            ta = {S.show(S.norm(e_, S.Env())) for e_ in tos[b_]}
+            fa = {S.show(S.norm(e_, S.Env())) for e_ in froms[b_]}
+            if len(ta) == 1 and len(fa) == 1:
+                n_pairs += 1
+                ctx.inst("C15.R9", "%s#split[%s]" % (d_.replace("blots_core::", ""), b_), ta == fa, "front part ends at %s, back part starts at %s" % (sorted(ta), sorted(fa)), H.loc(f_["body"]))
+    ctx.inst("C15.R9", "split-helpers#scanned", True, "%d functions of functions.rs / values.rs scanned; front/back splits of one slice found: %d" % (n_fn, n_pairs), None)
     # ---- R8 every argument reaches the aggregate, as the number it is
     ctx.rule("C15.R8", "`sum(a, ...xs, b)` hands every argument to the built-in: the loop that flattens spread arguments of a call never ends early; and inside sum / avg / prod / min / max no element passes through an integer type (a cast saturates at 2^63)", floor=4)
     hev = core.hir_fn("blots_core::expressions::evaluate_ast")
